@@ -4,7 +4,7 @@
     with "unset = 0"), latency bounds over LatencyModel.v (unbounded Z), and the
     lockset annotation of the fields shared with the periodic refresh. *)
 From Gnmi Require Import Base.Prelude CTree.CTreeModel Path.PathModel Cache.CacheModel
-  Cache.MultiCache Cache.C14Proofs Cache.C14Check Cache.C15Check Cache.C15Proofs Cache.C15Count Latency.LatencyModel Latency.LatencyProofs.
+  Cache.MultiCache Cache.C14Proofs Cache.C14Check Cache.C15Check Cache.C15Proofs Cache.C15Count Cache.C15Latest Latency.LatencyModel Latency.LatencyProofs.
 Local Open Scope Z_scope.
 
 (** update_accounting.  Reading fixed in DESIGN section 6: the law is per
@@ -163,3 +163,37 @@ Theorem C15_K_latency_sound : forall S p st,
   end.
 Proof. exact kp_window_sound. Qed.
 Print Assumptions C15_K_latency_sound.
+
+(** latest_is_max, exact one-call form (round 7) -- PARTIAL with respect to the
+    history statement kept as a comment at the end of Cache/C15Latest.v: after
+    ANY notification (single, multi, atomic, delete, empty; panicking calls
+    included) the latest timestamp is max(old, n.timestamp) exactly when the
+    notification is tracked (index path of its FIRST update not under "meta":
+    the first update decides for the whole notification) and accepted
+    ([C15Latest.accepted]: the updateTS flag of the code), and unchanged otherwise *)
+Theorem C15_latest_exact_partial : forall t now n t' fd r,
+  target_gnmi_update t now n = (t', fd, r) ->
+  t_ts t' = if tracks_ts n && accepted t now n then zmax_opt (t_ts t) (n_ts n) else t_ts t.
+Proof. exact latest_exact. Qed.
+Print Assumptions C15_latest_exact_partial.
+
+(** ... where a multi notification is accepted iff some update unit of it, run
+    in the state its predecessors left and before any panic, was not refused by
+    gnmiUpdate (announced or suppressed); deletes never count *)
+Theorem C15_latest_accepted_multi : forall now n us a,
+  a_ok (fold_left (multi_update_step now n) us a) = true <->
+  a_ok a = true \/
+  exists us1 u us2, us = us1 ++ u :: us2 /\
+    unit_accepted_at now n (fold_left (multi_update_step now n) us1 a) u.
+Proof. exact accepted_multi_spec. Qed.
+Print Assumptions C15_latest_accepted_multi.
+
+(** the reading "greatest timestamp of an accepted non-metadata UNIT" is false
+    of the code (first update under meta, second a new real leaf: accepted, the
+    latest timestamp does not move); the documented first-update quirk (no corpus witness yet) *)
+Theorem C15_latest_is_max_of_units_refuted :
+  exists t now n t' fd r u,
+    target_gnmi_update t now n = (t', fd, r) /\ r = GOk /\ In u (n_upd n) /\
+    tracks_ts (clone_with_update n u) = true /\ t_ts t' <> zmax_opt (t_ts t) (n_ts n).
+Proof. exact latest_is_max_of_units_refuted. Qed.
+Print Assumptions C15_latest_is_max_of_units_refuted.
